@@ -129,7 +129,12 @@ class Divider(FormulaStep):
         """
         val2 = eval_stack.pop()
         val1 = eval_stack.pop()
-        res = val1 / val2
+        if val2 == 0.0:
+            # The result is undefined.  Yield NaN, so that a `None` sample is produced
+            # for this timestamp, instead of raising and producing no sample at all.
+            res = math.nan
+        else:
+            res = val1 / val2
         eval_stack.append(res)
 
 
